@@ -119,16 +119,19 @@ class Capture:
             i += n
         def when(c):
             return c[1] if isinstance(c[1], (int, float)) and c[1] > 0 else 0.0
-        # first entry: root node created by the score itself; the end-of-score
-        # marker written by finish() sits at time 0 after every time-0 entry
-        n0 = sum(1 for c in self.calls if when(c) == 0.0)
+        # first entry: root node created by the score itself; last entry: the
+        # end-of-score marker written by finish() (the NRT workload sends no
+        # bundle with a positive time outside bind blocks, so every entry sits
+        # at time 0 and the marker is last whatever tail rule finish() uses)
         if len(out) != len(self.calls) + 2:
             raise ScoreShape(f'{len(self.calls)} sends but {len(out) - 2} score entries')
-        root, marker = out[0], out[1 + n0]
+        root, marker = out[0], out[-1]
         if [m.plain() for m in root.elements] != [['/g_new', 1, 0, 0]] or \
                 [m.plain() for m in marker.elements] != [['/c_set', 0, 0]]:
             raise ScoreShape('unexpected score framing')
-        body = out[1:1 + n0] + out[2 + n0:]
+        if any(when(c) != 0.0 for c in self.calls):
+            raise ScoreShape('workload sent a bundle with a positive time in NRT')
+        body = out[1:-1]
         # the score is ordered by time, then by insertion: undo that to get
         # emission order (outside routines a bundle time is absolute)
         order = sorted(range(len(self.calls)), key=lambda j: (when(self.calls[j]), j))
